@@ -74,6 +74,8 @@ pub fn dispatch(args: &[String]) -> i32 {
         "multi" => scen_multi(&ctx),
         "readonly" => scen_readonly(&ctx),
         "determ" => scen_determ(&ctx),
+        "rabuf" => crate::rabuf_scen::scen_rabuf(&ctx),
+        "rabuf-child" => crate::rabuf_scen::child_main(Path::new(ctx.args.get("file").map(|s| s.as_str()).unwrap_or("."))),
         "child" => crate::exec::child_main(Path::new(ctx.args.get("dir").map(|s| s.as_str()).unwrap_or("."))),
         other => {
             eprintln!("unknown scenario {}", other);
